@@ -1,6 +1,7 @@
 // Conformance driver for spec/Gov/CR.tla + Proposal.tla (C22, C29).
 //
 //	crstate replay <cfg.json> <behaviours.jsonl> [sweep [shard n]]
+//	crstate budget <cfg.json> <cases.jsonl>                          (decision table of BudgetTable.tla)
 //	crstate checkpoint <cfg.json> <behaviours.jsonl> [0 [shard n]]   (C23, CR part: see checkpoint.go)
 //
 // Every behaviour TLC printed is replayed block by block on a real
@@ -70,6 +71,12 @@ func main() {
 		rep.Summary(n, map[string]interface{}{"mode": "replay", "steps": st.steps, "blocks": st.blocks, "rollbacks": st.rollbacks,
 			"sweep_rollbacks": st.sweeps, "diff_compares": st.compares, "checker_verdicts": st.verdicts,
 			"probe_verdicts": st.probes, "double_withdraw_probes": st.doubleProbes, "txs": st.txs, "agree": st.agree}, sample)
+	case "budget":
+		var cases []map[string]interface{}
+		for _, b := range rep.ReadBehaviours(os.Args[3]) {
+			cases = append(cases, map[string]interface{}{"log": []interface{}{map[string]interface{}(b[0])}})
+		}
+		budgetMode(NewEnv(cfg), cases)
 	case "checkpoint":
 		checkpointMode(NewEnv(cfg), rep.ReadBehaviours(os.Args[3]), shard, nshard)
 	default:
